@@ -70,6 +70,8 @@ fn main() {
                 regressions_dir: format!("{root}/regressions"),
                 known: KnownFindings::load(&format!("{root}/known_findings.json")),
                 stage_filter: arg(&args, "--stage"),
+                hash_file: arg(&args, "--hash-file"),
+                emit: arg(&args, "--emit-hash").and_then(|h| u64::from_str_radix(&h, 16).ok()).zip(arg(&args, "--emit-to")),
             };
             let out = arg(&args, "--out");
             let sum = prop.run_shard(sa);
@@ -77,6 +79,17 @@ fn main() {
             match out {
                 Some(p) => std::fs::write(p, text).unwrap(),
                 None => println!("{text}"),
+            }
+        }
+        "digest" => {
+            let path = args.get(3).cloned().unwrap_or_default();
+            let v: serde_json::Value = serde_json::from_str(&std::fs::read_to_string(&path).unwrap_or_default()).unwrap_or(serde_json::Value::Null);
+            match prop.digest_of(v) {
+                Ok(d) => println!("{d:016x}"),
+                Err(e) => {
+                    eprintln!("{e}");
+                    std::process::exit(2);
+                }
             }
         }
         "corpus" => {
